@@ -502,6 +502,12 @@ func parentMain() {
 	write("cases_scalar_src.txt", ksrc)
 	write("cases_yamlerr.txt", yterms)
 	write("cases_exit.txt", eterms)
+	cterms, cfails := cronCases(*fSeed, 400)
+	write("cases_cron.txt", cterms)
+	sum.Dist["cron_specs"] = len(cterms)
+	for _, f := range cfails {
+		sum.OracleFails = append(sum.OracleFails, f)
+	}
 	sum.Nontrivial = len(distinct)
 	for _, f := range p.fails {
 		sum.OracleFails = append(sum.OracleFails, f)
